@@ -152,12 +152,10 @@ DecWidth(sub) == IF IntWidth(sub) > 0 THEN IntWidth(sub)
 
 \* width u of the integer that sf_read_float / sf_read_double deliver with normalisation off: the left-justified 32 bit value L of the
 \* decoder divided by 2^(32-u).  The PCM readers and the 16 bit codecs deliver the stored w-bit integer (u = w), PAF-24 its 24 bit
-\* integer, the ALAC and DWVW decoders the left-justified value itself (u = 32).  0: no rule (MIDI Sample Dump of 8 and 24 bit data
-\* divides L by 2^w, which is neither).
+\* integer, the ALAC and DWVW decoders the left-justified value itself (u = 32).  0: no rule.
 UnnormWidth(fmt) ==
     LET sub == Sub(fmt) IN
-    IF Major(fmt) = M_SDS THEN (IF sub = S_PCM_16 THEN 16 ELSE 0)
-    ELSE IF sub \in {S_ALAC16, S_ALAC20, S_ALAC24, S_ALAC32, S_DWVW12, S_DWVW16, S_DWVW24} THEN 32
+    IF sub \in {S_ALAC16, S_ALAC20, S_ALAC24, S_ALAC32, S_DWVW12, S_DWVW16, S_DWVW24} THEN 32
     ELSE IF sub \in {S_PCM_S8, S_PCM_U8, S_DPCM8} THEN 8
     ELSE IF sub = S_PCM_24 THEN 24
     ELSE IF sub = S_PCM_32 THEN 32
